@@ -64,6 +64,14 @@ def failing_calls(u, rng):
     ctor('Span under a parent that refuses it', text.Span, [('stylename', 'x')], LI, ['ok'], True, qs(D.TEXTNS, 'span'), allowed=False)
     if styles is not None:
         ctor('P under office:styles (refused)', text.P, [], styles, [], True, qs(D.TEXTNS, 'p'), allowed=False)
+    # shape factories (draw.py: StyleRefElement): a refused style reference, with parent= given
+    from odf import draw
+    wrong = style.Style(name='T9', family='text')              # not a graphic or presentation style
+    calls.append(('shape factory: stylename of the wrong family, parent=', lambda: draw.Rect(parent=cont, stylename=wrong, width='1cm', height='1cm'), None))
+    calls.append(('shape factory: classnames of the wrong family, parent=', lambda: draw.Rect(parent=cont, classnames=[wrong], width='1cm', height='1cm'), None))
+    calls.append(('shape factory: classnames given as a string, parent=', lambda: draw.Frame(parent=cont, classnames='gr1', width='1cm', height='1cm'), None))
+    calls.append(('shape factory: empty classnames, parent=', lambda: draw.Ellipse(parent=cont, classnames=[], width='1cm', height='1cm'), None))
+    calls.append(('shape factory: missing required attribute, parent=', lambda: draw.Line(parent=cont, stylename=style.Style(name='gr9', family='graphic')), None))
     # Element methods on existing nodes
     calls.append(('addElement illegal child (fresh)', lambda: LI.addElement(text.Span()), None))
     calls.append(('addElement illegal child (existing node, maybe attached)', lambda: LI.addElement(SPAN), ('dom_step', '(addelement %d %d 0)' % (f[7], f[2]))))
